@@ -385,6 +385,7 @@ def main(prop: str, tier: str) -> int:
         if prop == 'C17':
             n0 = len(traces)
             maildir_recent_histories(traces, meta)
+            maildir_external_first(traces, meta)
             run.notes['maildir_recent_directed'] = len(traces) - n0
         if prop == 'C02':
             # directed: a \\Seen-setting FETCH of session a with session b's flag change placed
@@ -554,6 +555,43 @@ def maildir_recent_histories(traces, meta) -> None:
                 meta.append({'recipe': sr.recipe, 'kind': 'maildir-recent-directed',
                              'backend': 'maildir', 'mid': mid, 'dest': dest, 'third': csel,
                              'schedule': log})
+
+
+def maildir_external_first(traces, meta) -> None:
+    """C17 on maildir: a delivery agent's file (no info suffix) arrives while NOBODY has the mailbox
+    selected; a STATUS and a read-only session look first (reset() gives the file its UID record, the
+    file stays in new/ - read-only selections never consume \\Recent), then the first read-write SELECT
+    must be shown the message \\Recent."""
+    for dest in ('INBOX', 'Box'):
+        for n in (1, 2):
+            sr = SyncRun(backend='maildir', init_flags=[()], sessions=['a', 'b', 'c'],
+                         controlled=True, claim_recent={'INBOX', 'Box'}, boxes=('Box',))
+            log = []
+
+            def do(s, c):
+                sr.issue(s, c)
+                sr.finish(s)
+                log.append(('cmd', s, c))
+            try:
+                for _ in range(n):
+                    sr.deliver_external(dest)
+                    log.append(('external', dest))
+                # STATUS makes the backend look at the folder (reset() gives the file its UID
+                # record) without any selection of it being in flight
+                do('b', ('status', dest))
+                do('b', ('examine', dest))
+                do('b', ('fetch', False, '1:*', False))
+                do('c', ('select', dest))
+                do('c', ('fetch', False, '1:*', False))
+                do('a', ('select', dest))
+                do('a', ('fetch', False, '1:*', False))
+                sr.quiesce()
+                sr.probe()
+            finally:
+                sr.close()
+            traces.append(sr.events)
+            meta.append({'recipe': sr.recipe, 'kind': 'maildir-external-first',
+                         'backend': 'maildir', 'dest': dest, 'n': n, 'schedule': log})
 
 
 def slow_idler_histories(traces, meta) -> None:
